@@ -584,7 +584,20 @@ class Stage:
         ws = tuple((wid, kind, getattr(w, "_ti_z_index", None), w._ti_disguise_state, wid in self.widgets)
                    for wid, kind, w in self.live_widgets() if wid in self.widgets or kind == "K")
         sub = sub_class(um)
-        return h64(repr((self.spec, ws, um.UrwidImageCanvas._ti_disguise_state,
+        # the screen's own bookkeeping (value abstraction): which canvas views it believes are on the terminal
+        # and whether the canvas it remembers is the one it painted last
+        wid_of = {id(w): wid for wid, kind, w in self.live_widgets()}
+        views = []
+        for cv in getattr(self.screen, "_ti_image_cviews", ()) or ():
+            try:
+                canv = cv[0]
+                views.append((wid_of.get(id(canv.widget_info[0]), "?"), tuple(canv.size)) + tuple(cv[1:]))
+            except Exception:  # noqa: BLE001
+                views.append(("?", repr(cv[1:])))
+        book = (sorted(views, key=repr),
+                getattr(self.screen, "_ti_screen_canv", None) is getattr(self.screen, "_screen_buf_canvas", None),
+                getattr(self.screen, "screen_buf", None) is not None)
+        return h64(repr((self.spec, ws, book, um.UrwidImageCanvas._ti_disguise_state,
                          sub.__dict__.get("_ti_next_z_index"), tuple(sub.__dict__.get("_ti_free_z_indexes", ())),
                          tuple(um.UrwidImage._ti_free_z_indexes), um.UrwidImage._ti_next_z_index)))
 
